@@ -599,7 +599,7 @@ class Path(PathDeprecations):
                 pdir = os.path.realpath(os.path.join(abs_path, ".."))
                 if not os.path.isdir(pdir) and mode.count("c") == 2:
                     ppdir = None
-                    while not os.path.isdir(pdir) and pdir != ppdir:
+                    while not os.path.exists(pdir) and pdir != ppdir:
                         ppdir = pdir
                         pdir = os.path.realpath(os.path.join(pdir, ".."))
                 if not os.path.isdir(pdir):
